@@ -226,12 +226,15 @@ def present(ctx: Ctx, jobs: list[list[dict[str, Any]]], tag: str = "") -> list[l
     return pv
 
 
-def learn_all(ctx: Ctx, cases: list[dict[str, Any]], hash_seed: int = 0, timeout: int = 30) -> None:
+def learn_all(ctx: Ctx, cases: list[dict[str, Any]], hash_seed: int = 0, timeout: int = 30,
+              want_graph: bool = False) -> None:
     reqs = []
     for i, c in enumerate(cases):
         c["pv"] = present(ctx, c["jobs"])
         reqs.append({"op": "learn", "chunks": [c["pv"]], "hash_seed": hash_seed,
                      "uuid_seed": ctx.seed * 100003 + i, "timeout": timeout})
+        if want_graph:
+            reqs[-1]["want_graph"] = True
         c["uuid_seed"] = ctx.seed * 100003 + i
         c["hash_seed"] = hash_seed
     reps = pvlib.run_requests(reqs)
